@@ -84,6 +84,96 @@ def chunkBody : Stmt :=
 
 /--
 ```python
+    for block in additional_data:                                      # block = v7
+        if block.tag == TRACEV3_DYLD_MODULES:
+            data = plistlib.loads(block.data)                          # data = v8
+            if not self.dyld_modules:
+                self.dyld_modules.update(data)
+            else:
+                self.dyld_modules['Binaries'].extend(data['Binaries'])
+        elif block.tag == TRACEV3_TRACE_CODES:
+            self.trace_codes += block.data.decode()
+        elif block.tag == TRACEV3_PROCESSES:
+            self.processes = plistlib.loads(block.data)
+        elif block.tag == TRACEV3_KERNEL_EXTENSIONS:
+            self.kernel_extensions['Binaries'].extend(plistlib.loads(block.data)['Binaries'])
+        elif block.tag == TRACEV3_IMAGES:
+            self.images = plistlib.loads(block.data)
+        elif block.tag == TRACEV3_LOG_EVENTS:
+            log_events.extend(plistlib.loads(block.data)['Events'])
+        elif block.tag == TRACEV3_LOG_STRINGS:
+            log_strings = {v: k for k, v in plistlib.loads(block.data)['StringIndex'].items()}
+```
+(the body of the block loop: an `elif` chain is nested `if … else`)
+-/
+def blockBody : Stmt :=
+  ite (eq (blockTag 7) (.const .dyldModules))
+    (seq (assignP 8 (.loads (blockData 7)))
+      (iteAttrEmpty .dyldModules (attrUpdate .dyldModules (.var 8)) (binExtend .dyldModules (.var 8))))
+  (ite (eq (blockTag 7) (.const .traceCodes)) (strAppendDecoded .traceCodes (blockData 7))
+  (ite (eq (blockTag 7) (.const .processes)) (setAttrP .processes (.loads (blockData 7)))
+  (ite (eq (blockTag 7) (.const .kernelExtensions)) (binExtend .kernelExtensions (.loads (blockData 7)))
+  (ite (eq (blockTag 7) (.const .images)) (setAttrP .images (.loads (blockData 7)))
+  (ite (eq (blockTag 7) (.const .logEvents)) (eventsExtend 5 (.loads (blockData 7)))
+  (ite (eq (blockTag 7) (.const .logStrings)) (assignInvIndex 6 (.loads (blockData 7))) skip))))))
+
+/--
+```python
+    for event in log_events:                                           # event = v9
+        log_event = OsLogEvent.from_raw_log_event(event, log_strings)  # log_event = v10
+        if log_event.process and log_event.thread_identifier:
+            self.threads_pids[log_event.thread_identifier] = log_event.process_identifier
+            self.pids_names[log_event.process_identifier] = log_event.process
+        yield log_event
+```
+(the body of the log loop)
+-/
+def logBody : Stmt :=
+  seq (.fromRawLog 10 9 6)
+    (seq (ite (.and (.fieldTruthy 10 .process) (.fieldTruthy 10 .tid))
+            (seq (storeLog .threadsPids .tid .pid 10) (storeLog .pidsNames .pid .process 10))
+            skip)
+      (yieldVar 10))
+
+/-- the five attribute resets and the two empty locals in front of the block loop -/
+def v3Resets (k : Stmt) : Stmt :=
+  seq (setAttrInit .traceCodes .emptyStr)
+    (seq (setAttrInit .kernelExtensions .binariesDict)
+      (seq (setAttrInit .dyldModules .emptyDict)
+        (seq (setAttrInit .images .emptyDict)
+          (seq (setAttrInit .processes .emptyDict)
+            (seq (newList 5)
+              (seq (newDict 6) k))))))
+
+/--
+```python
+    reader.seek(-8, 1)
+
+    additional_data = kd_v3_additional_data.parse_stream(reader)      # additional_data = v4
+
+    self.trace_codes = ''
+    self.kernel_extensions = {'Binaries': []}
+    self.dyld_modules = {}
+    self.images = {}
+    self.processes = {}
+
+    log_events = []                                                    # log_events = v5
+    log_strings = {}                                                   # log_strings = v6
+
+    for block in additional_data: …                                    # `blockBody`
+    for event in log_events: …                                         # `logBody`
+```
+(everything of `parse_v3` behind its chunk loop)
+-/
+def v3Tail : Stmt :=
+  seq (seekRel 8)
+    (seq (prim .additionalData 4)
+      (v3Resets
+        (seq (forIn 7 4 blockBody)
+          (forIn 9 5 logBody))))
+
+/--
+```python
 def parse_v3(self, reader: io.IOBase):
     self.v3_header = Aligned(8, kd_header_v3).parse_stream(reader)
     # Align the reader to 8 bytes from the beginning of the stream
@@ -103,7 +193,8 @@ def parse_v3(self, reader: io.IOBase):
             yield from_kd_buf(buf)
         if reader.read(len(TRACEV3_MORE_EVENTS)) != TRACEV3_MORE_EVENTS:   # the value read = v3
             break
-    # … (`reader.seek(-8, 1)` and everything behind it: hand-modelled `tailV3`)
+    reader.seek(-8, 1)
+    …                                                                  # `v3Tail`
 ```
 -/
 def parseV3 : Stmt :=
@@ -113,7 +204,8 @@ def parseV3 : Stmt :=
         (seq (callSeek (.const .threadmapTag))
           (seq (prim .threadmapV3 0)
             (seq (.setThreadMap 0)
-              (.while tt chunkBody))))))
+              (seq (.while tt chunkBody)
+                v3Tail))))))
 
 /--
 ```python
